@@ -137,6 +137,15 @@ pub fn oracle(cfg: &Cfg, run: &Run) -> Vec<(String, String)> {
         if row.chain != 3 { out.push(("schema.chain".into(), format!("chain statistic {} != 3", row.chain))); }
         if out.len() > 5 { break; }
     }
+    // transformation-update fields appear exactly on draws after which the transformation changed: every reported update carries a
+    // NEW id (an id repeated on a later draw is an update event without a change)
+    let mut last_upd: Option<i64> = None;
+    for (k, row) in run.rows.iter().enumerate() {
+        if let Some(id) = row.upd_id {
+            if let Some(p) = last_upd { if id <= p { out.push(("schema.update_event_without_change".into(), format!("draw {k}: transformation_update_id {id} reported again (previous reported id {p}): update fields on a draw after which the transformation did not change"))); break; } }
+            last_upd = Some(id);
+        }
+    }
     // a statistic without event dimension is present on every draw or on none
     for (j, n) in s.names.iter().enumerate() {
         if s.events[j].is_none() { if let Some((a, b)) = seen_present.get(n) { if *a > 0 && *b > 0 && seen.len() == s.names.len() { out.push(("schema.sometimes".into(), format!("non-event statistic {n} present on {a} draws and absent on {b}"))); } } }
@@ -153,7 +162,7 @@ pub fn main(tier: &str, seed: u64, outdir: &str) {
         let preset = (case % 6) as u8;
         let dim = match (case / 6) % 4 { 0 => if preset >= 3 { 2 } else { 0 }, 1 => if preset >= 3 { 2 } else { 1 }, 2 => 3, _ => 17 };
         let cfg = Cfg { preset, dim, flags: if case < 12 { 0 } else if case < 24 { 31 } else { r.below(32) as u8 },
-            fault_period: if case % 3 == 0 { 0 } else { 9 + r.below(30) }, fault_kind: (case / 3 % 2) as u8, num_tune: 40 + r.below(60), num_draws: 10 + r.below(20), seed: r.next() };
+            fault_period: if case % 3 == 0 { 0 } else { 9 + r.below(30) }, fault_kind: (case / 3 % 2) as u8, num_tune: if case % 7 == 3 { r.below(3) } else { 40 + r.below(60) }, num_draws: 10 + r.below(20), seed: r.next() };
         let run = run(&cfg);
         rep.evaluations += run.rows.len() as u64;
         rep.hit(&format!("preset{}.dim{}", preset, dim));
